@@ -27,6 +27,26 @@ CHECKS = {
             "On the lattice every sum the loop forms is exact, so the recorded grid of each of the 23 fixed-step methods is compared bit-for-bit with the spec grid for all 42 spans and 3 step sizes; shift and reflection of an autonomous problem are compared between two real runs (rounding level for explicit/splitting, tolerance level otherwise) for all 32 methods.",
             "Known finding F8 (implicit fixed-step methods grow the step) is pinned by a narrow signature; see known_findings.json.",
             "DESIGN.md 4/C04"),
+    "C06": ("model_checking",
+            "explicit-state breadth-first search over histories (integrate, integrate(mid), terminal-event stop, faulting integrate) with dense output on; all dense-output invariants evaluated on the real object in every reached state",
+            "From 10 methods (incl. two Richardson wrappers) x 5 signed spans every history to depth 3 is replayed on the real OdeSystem; in every state: exactly one anchored piece per recorded step with end values = rows and end slopes = f(rows), pieces ordered, every interior query (3 per step, scalar, array, grad, system[t]) answered by the containing piece, accuracy against the closed form within the Hermite remainder plus the observed grid error.",
+            "Direction reversal excluded; rounding-level thresholds 16 eps; finding F22 (Richardson wrapper of a low-order base) pinned narrowly.",
+            "DESIGN.md 4/C06"),
+    "C07": ("exploration",
+            "exhaustive product enumeration of event cells (problem x signed span x event set x scale x direction flag x method x dense) with closed-form roots as oracle for every reported tuple",
+            "Every reported (t_e, y_e, g) of every cell is checked: y_e equals the dense solution (or the Hermite piece rebuilt from the bracketing rows), |g| ~ 0 relative to the scale of g, t_e inside a recorded step, within a derived bound of an exact root, crossing direction compatible (computed and exact trajectory), list ordered along the direction of travel, no crossing reported twice. Roots are placed in step interiors and exactly on step boundaries of a dyadic lattice.",
+            "Direction is judged along the direction of integration; location bound 8*(E_interp+E_grid)/|gdot|.",
+            "DESIGN.md 4/C07"),
+    "C08": ("exploration",
+            "exhaustive product enumeration of the same event cells with an oracle evaluated only on recorded rows (strict sign change of g between the two ends of an accepted step => an event of that function inside the step)",
+            "For each of the cells (scales over 12 orders of magnitude, 1..3 (quick) / 1..6 (thorough) simultaneous events, both directions, dense on/off, 5 methods) every recorded step and every event function is examined; the number of demanded sign changes is reported so vacuity is visible.",
+            "Sound by construction: demands nothing the statement does not (strict inequality on recorded data).",
+            "DESIGN.md 4/C08"),
+    "C09": ("model_checking",
+            "explicit-state breadth-first search over event menus x {integrate(events), integrate(+-inf, events), partial integrate} x continuations {integrate(), other terminal event, reset}; invariants against closed-form roots in every state",
+            "17 menus of terminal / non-terminal events (every order of their roots, two terminals, shared roots, roots on step boundaries) x 7 signed spans x 5 methods x dense on/off: after a stop the status, last time = event time, last state on the surface, nothing beyond, only the earliest terminal plus earlier non-terminal events reported, dense output valid; continuations end at the target with C03/C06 invariants.",
+            "Re-arming the same terminal event at its own root is outside the statement; 'earliest' judged on exact roots for the lattice problem and accurate methods.",
+            "DESIGN.md 4/C09"),
     "C10": ("exploration",
             "exhaustive product enumeration (method x Hamiltonian x state lattice x signed h x state layout / kick mask x entry point) with the Jacobian of the real one-step map as oracle",
             "For every cell the Jacobian M of the real one-step map is formed (exact columns for quadratic Hamiltonians, central differences otherwise) and M^T J M = J is checked; symmetric schemes are stepped h then -h; 4096-step energy runs compare the two halves; table identities (b_i a_ij + b_j a_ji = b_i b_j, palindromic splitting lists) are checked exactly. Masks are passed by the constructor and through OdeSystem.set_kick_vars.",
